@@ -16,3 +16,4 @@ open Bec2Verif.C19
 #print axioms p256_compressed_point_roundtrip
 #print axioms jacobi_is_jacobi_symbol
 #print axioms p256_private_key_der_roundtrip
+#print axioms oid_roundtrip
